@@ -22,6 +22,7 @@ T1_FILES = {
 T2_MODULES = {
     "verif_rt.rs": ("lib.rs", "verif_rt.rs", "pub mod verif_rt;"),
     "verif_common.rs": ("injector_core/common.rs", "injector_core/common/verif_common.rs", "pub(crate) mod verif_common;"),
+    "verif_internal.rs": ("injector_core/internal.rs", "injector_core/internal/verif_internal.rs", "pub(crate) mod verif_internal;"),
     "verif_amd64.rs": ("injector_core/patch_amd64.rs", "injector_core/patch_amd64/verif_amd64.rs", "mod verif_amd64;"),
     "verif_arm64.rs": ("injector_core/patch_arm64.rs", "injector_core/patch_arm64/verif_arm64.rs", "mod verif_arm64;"),
     "verif_a64gen.rs": ("injector_core/arm64_codegenerator.rs", "injector_core/arm64_codegenerator/verif_a64gen.rs", "mod verif_a64gen;"),
@@ -153,7 +154,7 @@ def insert_panic_hooks(text, relpath, log):
     return "\n".join(out)
 
 
-def extract(work, modules, macos=False, big_arena=False, contracts=None, extra_files=None, features=""):
+def extract(work, modules, macos=False, big_arena=False, contracts=None, extra_files=None, extra_cfgs=None):
     """Build work/crate from REPO/src. modules: list of proof-module file names (contracts/kani/*).
     contracts: list of dicts {file, fn, nth, cfg_hint, lines:[...]} for T3.
     extra_files: {relative path under src: text} generated proof modules (e.g. the fake! arm harnesses);
@@ -225,18 +226,21 @@ def extract(work, modules, macos=False, big_arena=False, contracts=None, extra_f
         wr(parent, t.rstrip("\n") + "\n" + gate + modline + "\n")
         log.append({"rule": "T2", "file": parent, "added": modline, "module_file": dest})
 
-    # T6
+    # T6: the OS model is compiled as a module of the extracted crate, which names itself `libc`
+    shutil.copy(os.path.join(VERIF, "shim", "verif_os.rs"), os.path.join(src, "verif_os.rs"))
+    t = rd("lib.rs")
+    wr("lib.rs", t.rstrip("\n") + "\nextern crate self as libc;\nmod verif_os;\npub use verif_os::*;\n")
     cfgs = []
     if macos:
         cfgs.append("verif_macos")
     if big_arena:
         cfgs.append("verif_big_arena")
+    cfgs += list(extra_cfgs or [])
     with open(os.path.join(crate, "Cargo.toml"), "w") as f:
         f.write(
             '[package]\nname = "injectorpp"\nversion = "0.4.0"\nedition = "2021"\n\n'
-            '[dependencies]\nlibc = { path = "%s" }\n\n'
+            "[dependencies]\n\n"
             "[lints.rust]\nunexpected_cfgs = \"allow\"\ndead_code = \"allow\"\nunused = \"allow\"\n\n[workspace]\n"
-            % os.path.join(VERIF, "shim", "libc")
         )
     os.makedirs(os.path.join(crate, ".cargo"), exist_ok=True)
     with open(os.path.join(crate, ".cargo", "config.toml"), "w") as f:
